@@ -38,7 +38,7 @@ static void chaos_plan(Rng &rng, Plan &p, const std::string &prop) {
     if (prop == "C10" && rng.coin()) { static const long M[] = {1, 2, 8}; p.cfg.set("max_tx", M[rng.below(3)]); }
     int nconn = rng.chance(1, 6) ? (int) rng.range(2, 3) : 1;
     p.conns.resize((size_t) nconn);
-    GenFeatures f; f.bare_lf = true; f.wild_path = true;
+    GenFeatures f; f.bare_lf = true; f.wild_path = true; f.content_coding = true;
     std::vector<std::vector<Op>> per_conn((size_t) nconn);
     for (int c = 0; c < nconn; c++) {
         ConnPlan &cp = p.conns[(size_t) c];
@@ -477,12 +477,17 @@ static void c07_plan(Rng &rng, Plan &p, uint64_t variant) {
     Script s;
     MsgSpec q; q.method = "GET"; q.target = "/id0/c07"; { HeaderSpec h; h.name = "Host"; h.value = "c07.example"; q.headers.push_back(h); }
     MsgSpec r; r.is_request = false; r.status = 200; r.reason = "OK";
-    { HeaderSpec h; h.name = rng.coin() ? "Content-Encoding" : "content-encoding"; h.value = ce; r.headers.push_back(h); }
+    // request bodies are decompressed too when the configuration asks for it (one coding, no lists): a quarter of the single-coding runs
+    bool req_side = ce.find(',') == std::string::npos && rng.chance(1, 4);
+    p.cfg.set("c07_side", req_side ? 0 : 1);
+    if (req_side) { p.cfg.set("req_decomp", 1); q.method = "POST"; r.framing = FR_CL; { HeaderSpec h; h.name = "Content-Length"; h.value = "0"; r.headers.push_back(h); } }
+    MsgSpec &m = req_side ? q : r;
+    { HeaderSpec h; h.name = rng.coin() ? "Content-Encoding" : "content-encoding"; h.value = ce; m.headers.push_back(h); }
     { HeaderSpec h; h.name = "X-Sim-Id"; h.value = "0"; r.headers.push_back(h); }
-    r.body = body; r.payload = payload;
-    int fr = (int) rng.below(3);
+    m.body = body; m.payload = payload;
+    int fr = (int) rng.below(req_side ? 2 : 3);
     if (body.empty() && fr == 2) fr = 0;
-    if (fr == 0) { r.framing = FR_CL; HeaderSpec h; h.name = "Content-Length"; h.value = strfmt("%zu", body.size()); r.headers.push_back(h); }
+    if (fr == 0) { m.framing = FR_CL; HeaderSpec h; h.name = "Content-Length"; h.value = strfmt("%zu", body.size()); m.headers.push_back(h); }
     else if (fr == 1) { r.framing = FR_CHUNKED; HeaderSpec h; h.name = "Transfer-Encoding"; h.value = "chunked"; r.headers.push_back(h); size_t left = body.size(); while (left) { size_t c = std::min<size_t>(left, (size_t) rng.range(1, 5000)); r.chunk_sizes.push_back(c); left -= c; if (r.chunk_sizes.size() > 300) { r.chunk_sizes.push_back(left); break; } } }
     else r.framing = FR_CLOSE;
     s.req.push_back(q); s.res.push_back(r);
@@ -492,21 +497,24 @@ static void c07_plan(Rng &rng, Plan &p, uint64_t variant) {
     std::vector<Extent> m0, m1; for (auto &x : cp.xchg) { m0.push_back(x.req); m1.push_back(x.res); }
     static const size_t MEANS[] = {1, 2, 3, 4, 5, 8, 16, 64, 512, 4096};
     int strat = (int) rng.below(6);
-    std::vector<size_t> c1;
+    std::vector<size_t> c1;   // cuts of the stream that carries the coded body
     const Exchange &x = cp.xchg[0];
+    const int sd = req_side ? 0 : 1;
+    const Bytes &st = cp.stream[sd];
+    const size_t head_end = (size_t) (req_side ? x.req_head_end : x.res_head_end), msg_end = (size_t) (req_side ? x.req.b : x.res.b);
     if (strat == 0) {   // sweep a single cut through the start of the compressed body (header of the coding) and its end (trailer)
-        size_t bs = (size_t) x.res_head_end, be = (size_t) x.res.b;
+        size_t bs = head_end, be = msg_end;
         size_t span = std::min<size_t>(40, be - bs);
         size_t off = (size_t) ((variant / C07_NCOD) % (2 * span + 1));
         size_t pos = off <= span ? bs + off : be - (off - span);
-        if (pos > 0 && pos < cp.stream[1].size()) c1.push_back(pos);
-    } else if (strat == 1) { c1 = choose_cuts(rng, cp.stream[1], m1, ST_UNIFORM, MEANS[rng.below(5)]); }   // tiny chunks
+        if (pos > 0 && pos < st.size()) c1.push_back(pos);
+    } else if (strat == 1) { c1 = choose_cuts(rng, st, req_side ? m0 : m1, ST_UNIFORM, MEANS[rng.below(5)]); }   // tiny chunks
     else if (strat == 2) { // tiny first chunks of the body, then large
-        size_t pcut = (size_t) x.res_head_end; c1.push_back(pcut); for (int i = 0; i < 6 && pcut < cp.stream[1].size(); i++) { pcut += (size_t) rng.range(1, 4); c1.push_back(pcut); }
-        std::sort(c1.begin(), c1.end()); c1.erase(std::unique(c1.begin(), c1.end()), c1.end()); while (!c1.empty() && c1.back() >= cp.stream[1].size()) c1.pop_back();
-    } else c1 = choose_cuts(rng, cp.stream[1], m1, (int) rng.below(ST_ONECUT), MEANS[rng.below(10)]);
-    std::vector<size_t> c0;
-    skeleton_ops(rng, cp, 0, c0, c1, p.ops);
+        size_t pcut = head_end; c1.push_back(pcut); for (int i = 0; i < 6 && pcut < st.size(); i++) { pcut += (size_t) rng.range(1, 4); c1.push_back(pcut); }
+        std::sort(c1.begin(), c1.end()); c1.erase(std::unique(c1.begin(), c1.end()), c1.end()); while (!c1.empty() && c1.back() >= st.size()) c1.pop_back();
+    } else c1 = choose_cuts(rng, st, req_side ? m0 : m1, (int) rng.below(ST_ONECUT), MEANS[rng.below(10)]);
+    std::vector<size_t> c0;   // the other stream goes in one piece
+    if (req_side) skeleton_ops(rng, cp, 0, c1, c0, p.ops); else skeleton_ops(rng, cp, 0, c0, c1, p.ops);
 }
 
 // ---- layers and bombs: Content-Encoding lists against the configured layer limits, highly compressible nested bodies against
@@ -575,16 +583,18 @@ static bool check_c07(const Plan &p, const RunResult &r, std::string &oracle, st
     for (auto &ch : cname) if (ch == ',') ch = '+';
     if (r.conns[0].txs.size() != cp.xchg.size()) { oracle = "C07.tx_count." + cname; detail = strfmt("%zu exchanges, %zu transactions", cp.xchg.size(), r.conns[0].txs.size()); return false; }
     const TxRec *t = tx_of_exchange(r, 0, 0);
-    const Bytes *body = expect_get(cp.xchg[0], "@body.res");
+    const int sd = (int) p.cfg.get("c07_side", 1);
+    if (sd == 0) cname += ".request";
+    const Bytes *body = expect_get(cp.xchg[0], sd ? "@body.res" : "@body.req");
     if (!t || !body) return true;
-    if (t->body[1] != *body) {
-        size_t k = 0; while (k < body->size() && k < t->body[1].size() && (*body)[k] == t->body[1][k]) k++;
+    if (t->body[sd] != *body) {
+        size_t k = 0; while (k < body->size() && k < t->body[sd].size() && (*body)[k] == t->body[sd][k]) k++;
         if (t->decomp_restart_lost_input) {
             // attributed by call site: the restart path re-feeds only the current chunk (known finding K04 when listed)
             if (g_known_sites.count("decomp.restart.prior_input")) { if (agg) agg->inc("known_hit.decomp.restart.prior_input"); return true; }
             oracle = "C07.payload_mismatch@decomp.restart.prior_input";
         } else oracle = "C07.payload_mismatch." + cname;
-        detail = strfmt("payload %zu bytes, delivered %zu bytes, first difference at %zu (%s)", body->size(), t->body[1].size(), k, cname.c_str());
+        detail = strfmt("payload %zu bytes, delivered %zu bytes, first difference at %zu (%s)", body->size(), t->body[sd].size(), k, cname.c_str());
         return false;
     }
     if (t->n_complete[1] != 1) { oracle = "C07.response_not_complete." + cname; detail = "response did not complete after close"; return false; }
@@ -1193,7 +1203,7 @@ static void c18_plan(Rng &rng, Plan &p) {
         q.framing = FR_CL; q.body = q.payload = body; { HeaderSpec h; h.name = "Content-Length"; h.value = strfmt("%zu", body.size()); q.headers.push_back(h); }
         MsgSpec r; r.is_request = false; r.status = 200; r.reason = "OK"; r.framing = FR_CL; { HeaderSpec h; h.name = "Content-Length"; h.value = "0"; r.headers.push_back(h); }
         s.req.push_back(q); s.res.push_back(r); build_conn_from_script(rng, s, cp, false);
-    } else { GenFeatures f; f.wild_path = true; Script s = random_script(rng, f, (int) rng.range(1, 5), 0); build_conn_from_script(rng, s, cp, false); }
+    } else { GenFeatures f; f.wild_path = true; f.content_coding = true; Script s = random_script(rng, f, (int) rng.range(1, 5), 0); build_conn_from_script(rng, s, cp, false); }
     for (auto &x : cp.xchg) x.expect.clear();
     if (ops.empty() || rng.coin()) {
         ops.clear();
@@ -1316,7 +1326,7 @@ static void c19_plan(Rng &rng, Plan &p) {
     int nconn = (int) rng.range(2, 8);
     p.conns.resize((size_t) nconn);
     std::vector<std::vector<Op>> per((size_t) nconn);
-    GenFeatures f; f.wild_path = true;
+    GenFeatures f; f.wild_path = true; f.content_coding = true;
     for (int c = 0; c < nconn; c++) {
         ConnPlan &cp = p.conns[(size_t) c];
         int src = (int) rng.below(10);
@@ -1636,7 +1646,7 @@ static bool check_c16(const Plan &p, const RunResult &r, std::string &oracle, st
 std::string plan_trigger(const Plan &p) {
     if (p.prop == "C07" && p.scenario.compare(0, 6, "coding") == 0 && !p.conns.empty() && !p.conns[0].xchg.empty()) {
         long cod = p.cfg.get("c07_coding", 0);
-        const Bytes *body = expect_get(p.conns[0].xchg[0], "@body.res");
+        const Bytes *body = expect_get(p.conns[0].xchg[0], p.cfg.get("c07_side", 1) ? "@body.res" : "@body.req");
         // a body announced as gzip/deflate that is not compressed and too short for the decoder to reject before the stream ends
         if ((cod == 9 || cod == 10) && body && body->size() < 5) return "c07.short_plain_body_announced_as_compressed";
     }
